@@ -249,9 +249,9 @@ class AmplitudeChain(ModelDecay):
 
         fcs = get_from_parser(parsed, "fast_coherent_sum")
         if fcs:
-            (fcs,) = fcs
-            (fcs,) = fcs.children
-            cls.cartesian = bool(fcs)
+            # get_from_parser already returns the children of each matching node
+            ((fcs,),) = fcs
+            cls.cartesian = bool(int(fcs))
 
         # TODO: re-enable this
         # Combine dual line Cartesian lines into traditional cartesian lines
